@@ -93,6 +93,8 @@ def make_data():
         js = Seq([_jet(*j) for j in jets])
         out.append(Rec(a=a, b=b, x=a + 7, y=b + 1, z=4 + i, pt=10 + i, jets=js,
                        pairs=Seq([(1, 2), (3, 4 + i)]),
+                       # lists of known length for starred arguments (`h(*e.xs)`, `h(e.a, *e.rest)`, `h(*e.two)`)
+                       xs=[a + 2], rest=[b - 1], two=[a, b + 3], off=6 + i,
                        o=Rec(id=21, attr=22, value=23, lineno=24, ctx=25, a=26, pt=27, jets=js, x=28, b=29)))
     return out
 
@@ -216,6 +218,51 @@ class Case:
 LEGAL_TYPES = (str, int, float, bool, complex, bytes, types.ModuleType)   # the property's "transportable as a literal"
 
 
+class FunValue:
+    """What a function-valued result computes, observed at once (later rebinding of globals cannot change it): the
+    outcomes of calling it on fixed probe arguments, plus one keyword probe per parameter that has a default."""
+
+    def __init__(self, f, depth=0):
+        import inspect
+
+        probes = [((3,), {}), ((-7,), {}), ((), {}), ((2, 5), {})]
+        try:
+            sig = inspect.signature(f)
+            self.sig = str(sig)
+            for p in sig.parameters.values():
+                if p.default is not inspect.Parameter.empty and p.kind in (p.POSITIONAL_OR_KEYWORD, p.KEYWORD_ONLY):
+                    probes.append(((4,), {p.name: 11}))
+        except Exception:  # noqa
+            self.sig = "?"
+        self.outcomes = []
+        for a, kw in probes:
+            try:
+                self.outcomes.append((a, sorted(kw.items()), "ok", freeze_value(f(*a, **kw), depth + 1)))
+            except Exception as ex:  # noqa
+                self.outcomes.append((a, sorted(kw.items()), "exc", type(ex).__name__))
+
+    def __eq__(self, o):
+        return isinstance(o, FunValue) and self.sig == o.sig and len(self.outcomes) == len(o.outcomes) and all(
+            x[:3] == y[:3] and (same_value(x[3], y[3]) if x[2] == "ok" else x[3] == y[3])
+            for x, y in zip(self.outcomes, o.outcomes))
+
+    def __hash__(self):
+        return hash(self.sig)
+
+    def __repr__(self):
+        return "<function%s: %s>" % (self.sig, ", ".join(
+            "%s%s->%s" % (a, dict(kw) if kw else "", r if st == "ok" else "raises " + r) for a, kw, st, r in self.outcomes))
+
+
+def freeze_value(v, depth=0):
+    """Function values inside a result (a helper that returns a lambda) are replaced by their observed behaviour."""
+    if isinstance(v, types.FunctionType) and depth < 3:
+        return FunValue(v, depth)
+    if type(v) in (list, tuple, Seq) and depth < 6:
+        return type(v)(freeze_value(x, depth + 1) for x in v)
+    return v
+
+
 def _has_cell(v, depth=0) -> bool:
     if isinstance(v, types.CellType):
         return True
@@ -249,7 +296,7 @@ class Recorder:
         self.expected = []
         for d in self.data:
             try:
-                val = f(d)
+                val = freeze_value(f(d))
                 # CPython 3.12.1 (inlined comprehensions, PEP 709) can hand back an empty closure *cell* instead of
                 # a value when a name is both a comprehension target and a free variable: python itself is wrong
                 # there, nothing to compare with
@@ -333,7 +380,16 @@ def run_case(case: Case, data) -> Tuple[Session, Any]:
 # ---------------------------------------------------------------- model input (the snapshot, by construction)
 
 def plain_tree(n: ast.AST) -> bool:
+    """Only plain positional lambdas.  (Since F30/F31 the model covers default values and every parameter kind - see
+    [lam_view] in Model/Capture.v - so this is a histogram criterion only, no longer the model's domain.)"""
     return all(bridge._plain_lambda(x) for x in ast.walk(n) if isinstance(x, ast.Lambda))
+
+
+def in_domain(n: ast.AST) -> bool:
+    """The model decodes an ast.Lambda that is not plain from bridge's generic encoding: its ast.arg nodes must carry
+    their name as first atom (always so for parsed source)."""
+    return all(isinstance(a.arg, str) for x in ast.walk(n) if isinstance(x, ast.arguments)
+               for a in x.posonlyargs + x.args + x.kwonlyargs + [p for p in (x.vararg, x.kwarg) if p is not None])
 
 
 def helper_lambda(params: List[str], body_src: str) -> ast.Lambda:
@@ -341,7 +397,7 @@ def helper_lambda(params: List[str], body_src: str) -> ast.Lambda:
 
 
 class OutsideDomain(Exception):
-    """the model's domain is left (a lambda with non-positional parameter kinds)"""
+    """the model's domain is left (an ast.Lambda whose parameter list the model cannot decode)"""
 
 
 def capval_sx(v: Var, val: Any, case=None, rec=None, mod=None, expanding=()) -> str:
@@ -354,7 +410,7 @@ def capval_sx(v: Var, val: Any, case=None, rec=None, mod=None, expanding=()) -> 
         if any(val is f for f in expanding):
             return "(F -)"                      # FC5's recursion guard: a helper being expanded stays by name
         lam = helper_lambda(*v.helper)
-        if not plain_tree(lam):
+        if not in_domain(lam):
             raise OutsideDomain()
         # FC5: the helper's lambda is rewritten with the helper's own snapshot (one model step per helper)
         hce = build_cenv(lam, val, case, rec, mod, v.scope, expanding + (val,))
@@ -369,7 +425,7 @@ def capval_sx(v: Var, val: Any, case=None, rec=None, mod=None, expanding=()) -> 
             lm = None
         if lm is None:
             return "(F -)"
-        if not plain_tree(lm):
+        if not in_domain(lm):
             raise OutsideDomain()
         hce = build_cenv(lm, val, case, rec, mod, v.scope, expanding + (val,))
         return "(H %s %s)" % (hce, bridge.to_sx(lm))
@@ -471,7 +527,7 @@ def attr_table(objs: List[Any], attrs: List[str], mod) -> List[str]:
 
 def model_input(case: Case, rec: Recorder, mod) -> Optional[Tuple[str, str]]:
     lam = ast.parse(case.lam, mode="eval").body
-    if not plain_tree(lam):
+    if not in_domain(lam):
         return None
     try:
         ce = build_cenv(lam, rec.f, case, rec, mod, "inner")
@@ -520,10 +576,29 @@ def eval_recorded(tree: ast.AST, byname: Dict[str, Any], data) -> List[Tuple[str
         return [("exc", "compile:" + type(ex).__name__)] * len(data)
     for d in data:
         try:
-            out.append(("ok", f(d)))
+            out.append(("ok", freeze_value(f(d))))
         except Exception as ex:  # noqa
             out.append(("exc", type(ex).__name__))
     return out
+
+
+def ill_formed(tree: ast.AST) -> Optional[str]:
+    """Well-formedness of a recorded lambda as a Python expression: it compiles, and its text (ast.unparse) parses.
+    (`*e.xs + 1`, a Starred node outside an argument / display position, does neither.)"""
+    t = _Objs().visit(_clone(tree))
+    try:
+        compile(ast.fix_missing_locations(ast.Expression(body=t)), "<recorded>", "eval")
+    except Exception as ex:  # noqa
+        return "does not compile (%s: %s)" % (type(ex).__name__, str(ex)[:80])
+    try:
+        text = ast.unparse(t)
+    except Exception as ex:  # noqa
+        return "cannot be unparsed (%s)" % type(ex).__name__
+    try:
+        ast.parse(text, mode="eval")
+    except Exception as ex:  # noqa
+        return "its text `%s` does not parse (%s)" % (text[:120], type(ex).__name__)
+    return None
 
 
 def byname_namespace(case: Case, rec: Recorder) -> Dict[str, Any]:
@@ -547,6 +622,8 @@ def byname_namespace(case: Case, rec: Recorder) -> Dict[str, Any]:
 
 def same_value(a, b) -> bool:
     try:
+        if type(a) in (list, tuple, Seq) and type(a) is type(b):
+            return len(a) == len(b) and all(same_value(x, y) for x, y in zip(a, b))
         return bool(a == b) and type(a).__name__ == type(b).__name__ or (a == b and isinstance(a, (int, float)) and isinstance(b, (int, float)))
     except Exception:  # noqa
         return False
@@ -604,6 +681,11 @@ def check_shot(ctx, prop: str, case: Case, rec, data, pending: list, extra_oracl
         if rec.gate != want_gate:
             oracle_ok, why = False, "check_ast gave %s, the constants %s require %s" % (
                 rec.gate, [type(c).__name__ for c in consts], want_gate)
+        # well-formedness: what was recorded is a Python expression
+        bad = ill_formed(rec.tree)
+        ctx.count("wellformed_oracle", "ok" if bad is None else "ill-formed")
+        if oracle_ok and bad is not None:
+            oracle_ok, why = False, "the recorded lambda `%s` is not a Python expression: %s" % (bridge.dump(rec.tree), bad)
         # meaning: the recorded lambda, evaluated after the rebinding with no captured name in sight, computes what
         # the real callable computed at the call
         if oracle_ok and rec.gate == "ok":
@@ -619,6 +701,8 @@ def check_shot(ctx, prop: str, case: Case, rec, data, pending: list, extra_oracl
                         ev, bridge.dump(rec.tree), repr(gv) if gs == "ok" else "raises " + str(gv))
                     break
             ctx.count("semantic_oracle", "compared" if n_cmp else "python-raises-on-all-data")
+            if any(es == "ok" and isinstance(ev, FunValue) for es, ev in rec.expected):
+                ctx.count("semantic_oracle", "function-valued result: called on probe arguments")
             if n_cmp:
                 ctx.distinct.add(case.key())
     elif rec.status == "ValueError":
@@ -648,8 +732,12 @@ def check_shot(ctx, prop: str, case: Case, rec, data, pending: list, extra_oracl
         ctx.count("model", "input-construction-failed:" + rec.mi_error)
         return
     if mi is None:
-        ctx.count("model", "outside-domain(non-plain lambda)")
+        ctx.count("model", "outside-domain(undecodable lambda)")
         return
+    ctx.count("model_input", "plain lambdas only" if plain_tree(ast.parse(case.lam, mode="eval").body) and "(Other " not in mi[0]
+              else "default values / other parameter kinds (lam_view)")
+    if any(isinstance(n, ast.Starred) for n in ast.walk(ast.parse(case.lam, mode="eval").body)):
+        ctx.count("model_input", "starred argument")
     pending.append((case, rec, mi, oracle_ok, w))
 
 
